@@ -33,7 +33,17 @@ CHECKS = {
     },
 }
 
+CHECKS["C10"] = {
+    "engine": "bootlink-sim",
+    "level": "fault_enumeration",
+    "text": "Co-simulation of the real host stack (McuBoot + serial/bulk protocol classes + SerialDevice/UsbDevice) against a reference bootloader device model behind the third-party driver seam (pyserial Serial, libusbsio HID) with a simulated clock: seeded histories of 1..12 API calls with boundary-straddling lengths, seeded multi-fault plans (bit flip, dropped byte, truncated/missing/late response, NAK, ABORT, device error status, aborted data phase; HID missing/abort/short report) and position sweeps that inject every listed fault kind at every device-to-host stream position of short histories. Oracles compare the device-side history with the caller-visible result: exact in the fault-free configuration, 'failure or documented exception, never a wrong success, bounded simulated time' under faults.",
+    "note": "Trusted: the device model in /verif/c10 (written from the protocol definition, validated by the fault-free control configuration), the simulated drivers, the clock seam. CRC-consistent corruption and fault kinds the statement does not name are observed, never judged. SDP/SDPS: see DESIGN.md for the state of that half.",
+    "technique": "deterministic simulation with fault injection: seeded API histories against a reference device model over a simulated link, fault-position sweeps, history oracles",
+    "design_ref": "4.2",
+}
+
 ENGINES = [
+    {"name": "bootlink-sim", "path": "c10/", "serves_properties": ["C10"], "kind_free_text": "host/device co-simulation over a simulated UART / USB-HID link with discrete-event time"},
     {"name": "dbcache-sim", "path": "c18/", "serves_properties": ["C18"], "kind_free_text": "fork-zygote process simulator with OS-interface interposition and a seeded scheduler"},
 ]
 
